@@ -245,7 +245,10 @@ func genArgFor(r *gen.Rand, t string, depth int) rb.JV {
 		var es []rb.JV
 		for i := 0; i < n; i++ {
 			k := keys[r.Intn(len(keys))]
-			if seen[k] {
+			// the embedded struct as a whole and its promoted fields are not mixed in
+			// one literal (their relative order would decide the result)
+			promoted := k == "Z" || k == "w" || k == "W"
+			if seen[k] || promoted && seen["Inner"] || k == "Inner" && (seen["Z"] || seen["w"] || seen["W"]) {
 				continue
 			}
 			seen[k] = true
@@ -454,6 +457,7 @@ func genCB(r *gen.Rand, gs func(*gen.Rand, string) rb.GV) CBCase {
 
 var histContainers = []string{
 	"[]int", "[]int", "[]int8", "[]uint8", "[]uint64", "[]float64", "[]float32", "[]string", "[]bool", "[]any",
+	"[]int16", "[]int32", "[]int64", "[]uint", "[]uint16", "[]uint32", "map[string]int32", "map[string]int64", "map[string]uint16", "[3]int16", "[2]uint32",
 	"[3]int", "[3]int", "[2]string", "[3]uint8", "[2]float64",
 	"map[string]int", "map[string]int", "map[string]uint8", "map[string]string", "map[string]float64", "map[string]any", "map[string]bool",
 	"map[int]string", "map[int]int",
